@@ -43,6 +43,11 @@ func (l *filterRuleList) matches(name string) bool {
 	return false
 }
 
+// Matches reports whether the rules exclude name.
+func (l *filterRuleList) Matches(name string) bool {
+	return l.matches(name)
+}
+
 // exclude.c:recv_filter_list
 func RecvFilterList(c *rsyncwire.Conn) (*filterRuleList, error) {
 	var l filterRuleList
